@@ -450,7 +450,13 @@ pub fn finish(
     let _ = std::fs::create_dir_all(format!("{}/replays", root));
     let _ = std::fs::create_dir_all(format!("{}/evidence", root));
     let mut viol_list = Vec::new();
+    let mut machinery_from_checks = Vec::new();
     for (key, (f, n)) in &res.out.fails {
+        if key.starts_with("machinery:") || key.starts_with("generator:") {
+            // a problem of the harness itself: never a verdict about the engine
+            machinery_from_checks.push(format!("{} ({} cases) e.g. {} :: {}", key, n, f.case, f.detail.chars().take(300).collect::<String>()));
+            continue;
+        }
         let is_known = known
             .iter()
             .any(|k| k.status == "open" && k.property == id && &k.key == key);
@@ -488,6 +494,7 @@ pub fn finish(
         println!("({} further violation keys not printed; all are listed in the evidence file)", violations - 25);
     }
     let mut machinery = res.machinery_errors.clone();
+    machinery.extend(machinery_from_checks);
     if res.out.evals == 0 {
         machinery.push("no case was evaluated".to_string());
     }
